@@ -42,6 +42,12 @@ struct Elem
   }
   Elem(Proto, int k, int v) : id(-2), k(k), v(v) {}                       // the caller's argument object
   explicit Elem(int v) : id(g_next_id++), k(0), v(v) { vl_note('n', id, this); }   // in-place construction from an argument
+  Elem(int a, int b) : id(g_next_id++), k(0), v(a + b) { vl_note('n', id, this); }
+  Elem(int a, int b, int c) : id(g_next_id++), k(0), v(a + b + c) { vl_note('n', id, this); }
+  Elem(int a, int b, int c, int d) : id(g_next_id++), k(0), v(a + b + c + d) { vl_note('n', id, this); }
+  Elem(int a, int b, int c, int d, int e) : id(g_next_id++), k(0), v(a + b + c + d + e) { vl_note('n', id, this); }
+  Elem(int a, int b, int c, int d, int e, int f) : id(g_next_id++), k(0), v(a + b + c + d + e + f) { vl_note('n', id, this); }
+  Elem(int a, int b, int c, int d, int e, int f, int g) : id(g_next_id++), k(0), v(a + b + c + d + e + f + g) { vl_note('n', id, this); }
   Elem(const Elem& o) : id(g_next_id++), k(o.k), v(o.v) { vl_note('c', id, this); }
   Elem(Elem&& o) : id(g_next_id++), k(o.k), v(o.v) { vl_note('m', id, this); }
   Elem& operator=(const Elem& o) { k = o.k; v = o.v; if(id != -2) vl_note('=', id, this); return *this; }
@@ -63,6 +69,13 @@ struct ElemNC
     if(vl_lookup(this, 0, 0) < 0) id = -1; else { id = g_next_id++; vl_note('n', id, this); }
   }
   explicit ElemNC(int v) : id(g_next_id++), k(0), v(v) { vl_note('n', id, this); }
+  // the 2..7-argument forms of PoolList::append: the payload is the sum of the arguments
+  ElemNC(int a, int b) : id(g_next_id++), k(0), v(a + b) { vl_note('n', id, this); }
+  ElemNC(int a, int b, int c) : id(g_next_id++), k(0), v(a + b + c) { vl_note('n', id, this); }
+  ElemNC(int a, int b, int c, int d) : id(g_next_id++), k(0), v(a + b + c + d) { vl_note('n', id, this); }
+  ElemNC(int a, int b, int c, int d, int e) : id(g_next_id++), k(0), v(a + b + c + d + e) { vl_note('n', id, this); }
+  ElemNC(int a, int b, int c, int d, int e, int f) : id(g_next_id++), k(0), v(a + b + c + d + e + f) { vl_note('n', id, this); }
+  ElemNC(int a, int b, int c, int d, int e, int f, int g) : id(g_next_id++), k(0), v(a + b + c + d + e + f + g) { vl_note('n', id, this); }
   ~ElemNC() { if(id >= 0) vl_note('d', id, this); }
   ElemNC(const ElemNC&) = delete;
   ElemNC(ElemNC&&) = delete;
@@ -79,6 +92,12 @@ typedef Elem PoolElem;
 typedef ElemNC PoolElem;
 #endif
 
+// every non-template member of the pool containers (append() without arguments, remove(const T&) /
+// remove(const V&), front(), back(), clear(), swap() ...) is instantiated with the pool element type:
+// with the non-copyable type this file compiles only if none of them copies or moves an element
+template class PoolList<PoolElem>;
+template class PoolMap<int, PoolElem>;
+
 // ---- per-kind adapters -------------------------------------------------------------------------
 // C container, T element type; insert modes: 0 append, 1 prepend, 2 at position
 template<class C> static typename C::Iterator iter_at(C& c, long pos)
@@ -87,6 +106,10 @@ template<class C> static typename C::Iterator iter_at(C& c, long pos)
   for(long n = 0; n < pos && i != c.end(); ++n) ++i;
   return i;
 }
+
+#define PLAIN_EXTRAS \
+  static void insert_n(C& c, int, int k, int v) { insert(c, 0, 0, k, v); } \
+  static void remove_value(C& c, T*, long pos) { c.remove(iter_at(c, pos)); }
 
 struct TrList
 {
@@ -106,6 +129,7 @@ struct TrList
   static T* find(C&, int) { return 0; }
   static void swap(C& a, C& b) { a.swap(b); }
   static void assign(C& a, C& b) { a = b; }
+  PLAIN_EXTRAS
   static long id_of_item(C::Item* i) { return i->value.id; }
 };
 
@@ -123,13 +147,14 @@ struct TrMap
   static T* find(C& c, int k) { C::Iterator i = c.find(k); return i == c.end() ? 0 : &*i; }
   static void swap(C&, C&) {}
   static void assign(C& a, C& b) { a = b; }
+  PLAIN_EXTRAS
   static long id_of_item(C::Item* i) { return i->value.id; }
 };
 
 struct TrMulti
 {
   typedef MultiMap<int, Elem> C; typedef Elem T;
-  enum { has_swap = 0, has_assign = 0, has_find = 2, is_tree = 1, is_hash = 0 };
+  enum { has_swap = 0, has_assign = 1, has_find = 2, is_tree = 1, is_hash = 0 };
   static C* make(void* m, usize) { return new(m) C; }
   static long stride() { return sizeof(C::Item); }
   static T* addr(C::Iterator& i) { return &*i; }
@@ -139,7 +164,8 @@ struct TrMulti
   static void remove_key(C& c, int k) { c.remove(k); }
   static T* find(C& c, int k) { C::Iterator i = c.find(k); return i == c.end() ? 0 : &*i; }
   static void swap(C&, C&) {}
-  static void assign(C&, C&) {}
+  static void assign(C& a, C& b) { a = b; }
+  PLAIN_EXTRAS
   static long id_of_item(C::Item* i) { return i->value.id; }
 };
 
@@ -161,6 +187,7 @@ struct TrHashMap
   static T* find(C& c, int k) { C::Iterator i = c.find(k); return i == c.end() ? 0 : &*i; }
   static void swap(C& a, C& b) { a.swap(b); }
   static void assign(C& a, C& b) { a = b; }
+  PLAIN_EXTRAS
   static long id_of_item(C::Item* i) { return i->value.id; }
 };
 
@@ -182,6 +209,7 @@ struct TrHashSet
   static T* find(C& c, int k) { C::Iterator i = c.find(Elem(Proto(), k, 0)); return i == c.end() ? 0 : (T*)&*i; }
   static void swap(C& a, C& b) { a.swap(b); }
   static void assign(C& a, C& b) { a = b; }
+  PLAIN_EXTRAS
   static long id_of_item(C::Item* i) { return i->key.id; }
 };
 
@@ -195,6 +223,22 @@ struct TrPoolList
   static int key(C::Iterator&) { return 0; }
   static int val(C::Iterator& i) { return (*i).v; }
   static void insert(C& c, int, long, int, int v) { c.append(v); }
+  // the other forms of append: n = number of constructor arguments; the payload is v in every form
+  static void insert_n(C& c, int n, int, int v)
+  {
+    switch(n) {
+    case 0: c.append().v = v; break;             // the form Server.cpp / Future.cpp use
+    case 2: c.append(v - 1, 1); break;
+    case 3: c.append(v - 2, 1, 1); break;
+    case 4: c.append(v - 3, 1, 1, 1); break;
+    case 5: c.append(v - 4, 1, 1, 1, 1); break;
+    case 6: c.append(v - 5, 1, 1, 1, 1, 1); break;
+    case 7: c.append(v - 6, 1, 1, 1, 1, 1, 1); break;
+    default: c.append(v);
+    }
+  }
+  // remove(const T&): the node is computed from the address of the element
+  static void remove_value(C& c, T* addr, long) { c.remove(*addr); }
   static void remove_key(C&, int) {}
   static T* find(C&, int) { return 0; }
   static void swap(C& a, C& b) { a.swap(b); }
@@ -218,6 +262,9 @@ struct TrPoolMap
     else (*c.insert(iter_at(c, pos), k)).v = v;
   }
   static void remove_key(C& c, int k) { const int& kr = k; c.remove(kr); }
+  static void insert_n(C& c, int, int k, int v) { insert(c, 0, 0, k, v); }
+  // remove(const V&): the node is computed from the address of the element
+  static void remove_value(C& c, T* addr, long) { const T& r = *addr; c.remove(r); }
   static T* find(C& c, int k) { C::Iterator i = c.find(k); return i == c.end() ? 0 : &*i; }
   static void swap(C& a, C& b) { a.swap(b); }
   static void assign(C&, C&) {}
@@ -256,6 +303,26 @@ template<class A> struct HashDump<A, 1>
     }
   }
 };
+
+// ---- pointer-level dump (compared with the cell machine of coq/Stable/StableHeap.v) -------------------------
+// prev / next of every item in iteration order (0 = null, E0 / E1 = the endItem of container A / B, otherwise
+// the item's place), for the hash kinds also cell (the address of data[b] or of an item's nextCell) and nextCell
+template<class A, int IsHash> struct ChainPtrs { static void run(typename A::C&, typename A::C::Item*, long) {} };
+template<class A> struct ChainPtrs<A, 1>
+{
+  static void run(typename A::C& c, typename A::C::Item* i, long dser)
+  {
+    long off = 0; long ser = vl_lookup(i->cell, &off, 0);
+    if(ser >= 0 && ser == dser) printf(":%ld.%ld", ser, off / (long)sizeof(void*));
+    else if(ser >= 0) printf(":%ld.%ld", ser, (off - (long)sizeof(void*)) / A::stride());
+    else printf(":?");
+    if(!i->nextCell) printf(">0");
+    else { long o2 = 0; long s2 = vl_lookup(i->nextCell, &o2, 0); printf(">%ld.%ld", s2, (o2 - (long)sizeof(void*)) / A::stride()); }
+    (void)c;
+  }
+};
+template<class A, int IsHash> struct DataSer { static long run(typename A::C&) { return -1; } };
+template<class A> struct DataSer<A, 1> { static long run(typename A::C& c) { return c.data ? vl_lookup(c.data, 0, 0) : -1; } };
 
 template<class A> struct Drv : IDrv
 {
@@ -334,6 +401,30 @@ template<class A> struct Drv : IDrv
     else printf("-");
   }
 
+  void ptr_str(const void* p, char* buf)
+  {
+    if(!p) sprintf(buf, "0");
+    else if(p == (const void*)&cont[0]->endItem) sprintf(buf, "E0");
+    else if(p == (const void*)&cont[1]->endItem) sprintf(buf, "E1");
+    else slot_str(p, buf);
+  }
+  void print_ptrs(int s)
+  {
+    if(A::is_tree) { printf("-"); return; }
+    C& c = *cont[s];
+    char b1[64], b2[64];
+    ptr_str(c._begin.item, b1); ptr_str(c.endItem.prev, b2);
+    printf("b=%s,l=%s,n=%lu;", b1, b2, (unsigned long)c.size());
+    long dser = DataSer<A, A::is_hash>::run(c);
+    int first = 1;
+    for(long j = 0; j < nseen; ++j) if(seen[j].side == s) {
+      typename C::Item* i = seen[j].it.item;
+      ptr_str(i->prev, b1); ptr_str(i->next, b2);
+      printf(first ? "%ld:%s>%s" : ",%ld:%s>%s", seen[j].id, b1, b2); first = 0;
+      ChainPtrs<A, A::is_hash>::run(c, i, dser);
+    }
+  }
+
   void op(long cs, vh::Tok& t)
   {
     C& c = *cont[cur];
@@ -343,6 +434,16 @@ template<class A> struct Drv : IDrv
     else if(!strcmp(o, "app")) A::insert(c, 0, 0, atoi(t.v[1]), atoi(t.v[2]));
     else if(!strcmp(o, "pre")) A::insert(c, 1, 0, atoi(t.v[1]), atoi(t.v[2]));
     else if(!strcmp(o, "insat")) A::insert(c, 2, atol(t.v[1]), atoi(t.v[2]), atoi(t.v[3]));
+    else if(!strcmp(o, "appn")) A::insert_n(c, atoi(t.v[1]), atoi(t.v[2]), atoi(t.v[3]));
+    else if(!strcmp(o, "rmval")) {
+      // remove through the ADDRESS recorded when the element was first seen (not a fresh iterator)
+      long pos = atol(t.v[1]);
+      if(pos >= 0 && (usize)pos < c.size()) {
+        It it = iter_at(c, pos); long id = A::addr(it)->id; T* addr = A::addr(it);
+        for(long j = 0; j < nsaved; ++j) if(saved[j].id == id) { addr = saved[j].addr; break; }
+        A::remove_value(c, addr, pos);
+      }
+    }
     else if(!strcmp(o, "rmat")) { long pos = atol(t.v[1]); if(pos >= 0 && (usize)pos < c.size()) c.remove(iter_at(c, pos)); }
     else if(!strcmp(o, "rmfront")) { if(c.size()) c.removeFront(); }
     else if(!strcmp(o, "rmback")) { if(c.size()) c.removeBack(); }
@@ -350,6 +451,7 @@ template<class A> struct Drv : IDrv
     else if(!strcmp(o, "clear")) c.clear();
     else if(!strcmp(o, "swap")) { if(A::has_swap) A::swap(*cont[0], *cont[1]); }
     else if(!strcmp(o, "assign")) { if(A::has_assign) A::assign(c, *cont[1 - cur]); }
+    else if(!strcmp(o, "selfassign")) { if(A::has_assign) A::assign(c, *cont[cur]); }     // x = x through two references
     else if(!strcmp(o, "destroy")) { c.~C(); A::make(cont[cur], cap); }
     else { printf("%ld ?unknown-op\n", cs); return; }
 
@@ -401,6 +503,7 @@ template<class A> struct Drv : IDrv
     }
     if(!nev) printf("-");
     printf(" | A:"); print_internal(0); printf(" B:"); print_internal(1);
+    printf(" | P A:"); print_ptrs(0); printf(" B:"); print_ptrs(1);
     printf("\n");
   }
 };
